@@ -134,6 +134,11 @@ func (mbs *metadataPartStorage) AppendObject(ctx context.Context, bucketName sto
 		if existingObject != nil && !objectPartManifestComplete(existingObject) {
 			return storage.ErrNoSuchKey
 		}
+		// The append is stored as a new object row sharing the existing parts when
+		// versioning is enabled, and also when versioning is suspended while the
+		// current object is a real version (that version must stay untouched and
+		// the append becomes the null version).
+		appendSharesExistingParts := versioningEnabled || (existingObject != nil && existingObject.VersionID != nil && *existingObject.VersionID != "null")
 
 		// Validate WriteOffset condition.
 		if opts != nil && opts.WriteOffset != nil {
@@ -210,7 +215,7 @@ func (mbs *metadataPartStorage) AppendObject(ctx context.Context, bucketName sto
 		}
 
 		if existingObject != nil {
-			if versioningEnabled {
+			if appendSharesExistingParts {
 				// The new version shares the unchanged prefix. Pre-acquiring registry
 				// references prevents a concurrent delete from condemning those parts.
 				allParts = make([]metadatastore.Part, 0, len(existingObject.Parts)+1)
